@@ -331,7 +331,25 @@ class Gen:
             # entered after something else finished
             v = ("par", t.lets[-1][0])
             first = ("par", t.lets[0][0]) if len(t.lets) > 1 else self.gen_arg("int", env, t, 1)
-            shape = self.ch.choice(3, "let-shape")
+            shape = self.ch.choice(5, "let-shape")
+            raising = [u.raises[0] for u in self.prog.tasks if u.raises]
+            if shape >= 3 and self.has("catch") and self.has("errors") and raising:
+                # the variable's failure is swallowed by a catch, then the same expression is
+                # needed again by a later stage of the same job: it must fail again
+                en = raising[self.ch.choice(len(raising), "let-catch-cls")]
+                rec = self.recover_task("int", single=True)
+                caught = ("catch", v, en, rec.idx)
+                if shape == 3:
+                    staged = ("idx", ("seq", [caught, v]), 1)
+                else:
+                    staged = ("cond", ("op", "<", caught, ("lit", 0)), ("lit", 1), v)
+                # (often alone: another failing term of the body would mask what the staged
+                # form yields)
+                t.body = staged if self.ch.coin(0.6, "let-catch-alone") else \
+                    ("op", "+", t.body, staged)
+                return
+            if shape >= 3:
+                shape = 0
             if shape == 0:
                 staged = ("idx", ("seq", [first, v, v]), 2)
             elif shape == 1 and self.has("cond"):
